@@ -61,6 +61,8 @@ SPECS = {
                  F('c', default=1)],
     # Final annotations: without a default the field takes input (once), with a default it takes none
     'final': [F('a', final=True), F('b', final=True, default=3, no_input=True), F('c', default=1)],
+    # a field restricted by its own mode AND by a mode-string switch
+    'modeout': [F('a', mode='rw', no_output='r', default=0), F('b', mode='wa', no_input='a', default=1), F('c', default=2)],
     'modereq': [F('a', required='w', default=6), F('b', required='a', factory=seven), F('c', required='r', default=1, no_output='w')],
     'mix': [F('a', alias='A1', ci=True), F('b', alias_from=['b1'], default=0, deps=['a']),
             F('c', no_input=True, default=2), F('d', ge=0, on_error='exclude', required=False)],
